@@ -142,7 +142,8 @@ def run(ctx):
                      "nested_fields": opts["nested_fields"], "object_fields": sorted(opts["object_fields"]),
                      "sub_fields": subs}
         ctx.count("legacy mapping" if legacy else "current mapping")
-        for path, is_text, nested, under in list(mapped_leaves(props)) + list(mapped_leaves(extra_props)):
+        all_leaves = list(mapped_leaves(props)) + list(mapped_leaves(extra_props))
+        for path, is_text, nested, under in all_leaves:
             for spelling, q in spellings(rng, path):
                 if spelling == "nested groups" and "multi-field" in under and False:
                     continue
@@ -151,14 +152,21 @@ def run(ctx):
                     continue
                 d = r0["ok"]
                 info = {"schema": schema, "field": ".".join(path), "q": q}
-                r, raw = es.build(opts, t)
+                # (the option kept for compatibility with 0.6 changes how an ANALYSED word is matched, nothing else;
+                # seeded C19-H: tested before the analysed check)
+                as_phrase = rng.random() < 0.2
+                use = dict(opts, match_word_as_phrase=True) if as_phrase else opts
+                r, raw = es.build(use, t)
+                if as_phrase:
+                    ctx.count("match_word_as_phrase=True")
                 ctx.case((json.dumps(schema, sort_keys=True), path, spelling), nontrivial=len(path) > 1,
                          sample={"field": ".".join(path), "ancestors": list(under), "q": q, "json": raw}
                          if len(path) > 2 else None)
                 ctx.count("spelling:" + spelling)
                 ctx.count("innermost nested: %s" % ("yes" if nested else "no"))
-                reqs.append({"op": "schema", "schema": schema, "tree": d})
-                exp.append(dict(impl_opts, build=r))
+                if not as_phrase:
+                    reqs.append({"op": "schema", "schema": schema, "tree": d})
+                    exp.append(dict(impl_opts, build=r))
                 if "ok" not in r:
                     ctx.fail("querying the mapped field %s raises %s" % (".".join(path), r["err"][0]), dict(info, err=r["err"]))
                     continue
@@ -172,6 +180,21 @@ def run(ctx):
                 if (kind in TERM_LEVEL) != (not is_text):
                     ctx.fail("the clause on %s is %s although the mapped type is %s" % (
                         ".".join(path), kind, "analysed text" if is_text else "not analysed text"), dict(info, json=raw))
+                if spelling == "dotted" and not as_phrase and rng.random() < 0.15 and type(t).__name__ == "SearchField":
+                    # a parsed tree used as a template: the field is renamed in place and the tree translated again
+                    # (seeded C19-H: the split name remembered on the node the first time it is read)
+                    others = [pp for pp, _, _, _ in all_leaves if pp != path]
+                    if others:
+                        p2 = rng.choice(others)
+                        t.name = ".".join(p2)
+                        r_again, _ = es.build(opts, t)
+                        _, t_fresh = parsing.impl_parse(".".join(p2) + ":x")
+                        r_fresh, _ = es.build(opts, t_fresh) if t_fresh is not None else (None, None)
+                        ctx.count("history: field renamed in place, translated again")
+                        if t_fresh is not None and r_again != r_fresh:
+                            ctx.fail("a tree whose field was renamed in place (%s -> %s) is not translated as the query "
+                                     "with the new name is" % (".".join(path), ".".join(p2)),
+                                     dict(info, renamed=".".join(p2), got=r_again, fresh=r_fresh))
                 want = [nested] if nested else []
                 if paths != want:
                     # KF11 predicts: a nested clause only when the field's own container is the nested one
